@@ -23,9 +23,9 @@ META = dict(
 )
 
 ROLES = [
-    ('notify', re.compile(r'rpki_notify')),
-    ('result', re.compile(r'load_repository.*@Continue\.0$')),
-    ('runok', re.compile(r'load_repository$')),
+    ('result', re.compile(r'^call:Run::load_repository\(.*\)@Continue\.0$')),
+    ('runok', re.compile(r'^call:Run::load_repository\((?!.*@Continue\.0$).*\)$')),
+    ('notify', re.compile(r'^call:CaCert::rpki_notify\([^@]*\)$')),
     ('rrdp', re.compile(r'^self\.rrdp$')),
     ('rsync', re.compile(r'^self\.rsync$')),
     ('policy', re.compile(r'rrdp_fallback$')),
@@ -141,12 +141,12 @@ def rule_try_update(ctx):
             continue
         cm = p.cond_map()
 
-        def val(sfx):
+        def val(rx):
             for v, labs in cm.items():
-                if v.endswith(sfx) and len(labs) == 1:
+                if re.search(rx, v) and len(labs) == 1:
                     return list(labs)[0]
             return None
-        if val('RepositoryUpdate::update') != 'pass':
+        if val(r'^call:RepositoryUpdate::update\(.*\)$') != 'pass':
             continue
         n += 1
         lr = set()
@@ -154,10 +154,10 @@ def rule_try_update(ctx):
             for st in b.blocks[bb]['stmts']:
                 if st['s'] == 'assign' and st['rv']['r'] == 'agg' and norm(st['rv'].get('adt') or '').endswith('LoadResult'):
                     lr.add(st['rv']['variant'])
-        updated = val('RepositoryUpdate::update@Continue.0')
-        has_copy = val('RrdpArchive::try_open') == 'Ok' and val('RrdpArchive::try_open@Ok.0') == 'Some'
-        expired = val('RepositoryState::is_expired')
-        bbf = val('Option::and_then')
+        updated = val(r'^call:RepositoryUpdate::update\(.*\)@Continue\.0$')
+        has_copy = val(r'^call:RrdpArchive::try_open\(.*\)$') == 'Ok' and val(r'^call:RrdpArchive::try_open\(.*\)@Ok\.0$') == 'Some'
+        expired = val(r'^call:RepositoryState::is_expired')
+        bbf = val(r'^call:Option::and_then')
         if updated == 'true':
             exp = {'Updated'}
         elif updated == 'false' and has_copy and expired == 'false':
